@@ -95,3 +95,26 @@ Theorem C10_fuel_irrelevant : forall f1 f2 a tg tr op script,
   run_script (switch_page f1 a tg tr op) script = run_script (switch_page f2 a tg tr op) script.
 Proof. exact switch_fuel_irrelevant. Qed.
 Print Assumptions C10_fuel_irrelevant.
+
+(* ---------------------------------------------------------------------------------------- *)
+(* Several calls on one Sign.  The Rust object keeps nothing between calls but its address, type and bus handle;
+   [run_cops_script] (model/Controller.v) runs a list of calls, each on what the previous ones left of the script.
+   That "what is left" is exactly the script minus one reply per message sent, and two calls in a row are the
+   sequential composition of their programs -- so every per-call theorem above applies to each call of a sequence
+   with the remaining script. *)
+
+Theorem C10_call_leaves : forall A (p : prog A) script tr o,
+  run_script p script = (tr, o) -> o <> Blocked ->
+  run_script_rest p script = (tr, o, skipn (length tr) script)
+  /\ (length tr <= length script)%nat.
+Proof. exact @run_script_leaves. Qed.
+Print Assumptions C10_call_leaves.
+
+Theorem C10_two_calls : forall c1 c2 script tr1 v1,
+  run_script (cop_prog c1) script = (tr1, Done v1) ->
+  run_cops_script [c1; c2] script
+  = [(tr1, Done v1); run_script (cop_prog c2) (skipn (length tr1) script)]
+  /\ run_script (cop_prog c1 ;;; cop_prog c2) script
+     = (let '(tr2, o2) := run_script (cop_prog c2) (skipn (length tr1) script) in (tr1 ++ tr2, o2)).
+Proof. exact run_cops_two. Qed.
+Print Assumptions C10_two_calls.
